@@ -204,6 +204,9 @@ func CheckStringTypeChanges(diffs []TypeDiff, type1, type2 *spec.SchemaProps) []
 			if len(type1.Enum) > 0 {
 				enumDiffs := CompareEnums(type1.Enum, type2.Enum)
 				diffs = append(diffs, enumDiffs...)
+			} else if len(type2.Enum) > 0 {
+				// an enum where there was none restricts the accepted values
+				diffs = addTypeDiff(diffs, TypeDiff{Change: AddedConstraint, Description: "Enum"})
 			}
 		}
 	}
